@@ -18,14 +18,15 @@ PROP = dict(
                "this check.  Matching is taken from the specification topic_matches (that the trie computes it is C01/C02).  "
                "Modelled not verified: Go maps keyed by client id are functions of the client; the shared selection is an "
                "oracle reconstructed from who received (all candidate oracles are tried).",
-    engines=[dict(hx="route", args=["c04"], model="route_c04"), dict(hx="route", args=["c04f"], model="route_c04f")],
+    engines=[dict(hx="route", args=["c04"], model="route_c04"), dict(hx="route", args=["c04f"], model="route_c04f"),
+             dict(hx="route", args=["c04r"], model="route_c04f")],
     theorems=["C04_qos", "C04_granted", "C04_ids", "C04_ids_retained", "C04_retain", "C04_history", "C04_stored_copy", "C04_resume"],
     model_files="coq/Session/Deliver.v",
     rule="server maximum QoS 0/1/2 x subscriber version 4/5 x every single subscription over (QoS 0-2, identifier none/1/2, "
          "RAP) (exhaustive) + sampled sets of 2-3 overlapping subscriptions over {a/b, a/+, a/#, #} (quick 150, thorough 3000 "
          "per configuration); per set: three retained messages published at QoS 0/1/2 before the subscriptions (retained "
          "deliveries on each SUBSCRIBE), then live publishes at QoS 0/1/2 x retain flag; scripted merges of one client's "
-         "non-shared subscription with two shared selections and an inline publish.  Second stream (c04f, 160 / 6000 histories): subscribers that withhold acknowledgements (MQTT 5 with Receive Maximum 1-2 and a persistent session, MQTT 3.1.1 persistent), bursts of QoS 1/2 publishes with unique payloads, single acknowledgements, disconnects and resumes: every PUBLISH copy received in any step (first transmission, released after a hold, delivered on reconnection, DUP resend) is judged by the C04 specification of the publish with that payload in the state in which it was published.  non-trivial = a PUBLISH was delivered "
+         "non-shared subscription with two shared selections and an inline publish.  Second stream (c04f, 160 / 6000 histories): subscribers that withhold acknowledgements (MQTT 5 with Receive Maximum 1-2 and a persistent session, MQTT 3.1.1 persistent), bursts of QoS 1/2 publishes with unique payloads, single acknowledgements, disconnects and resumes: every PUBLISH copy received in any step (first transmission, released after a hold, delivered on reconnection, DUP resend) is judged by the C04 specification of the publish with that payload in the state in which it was published.  Third stream (c04r, 24 / 300 histories x bolt, redis (thorough: all four back ends)): the same with a real storage hook, a broker shutdown and a second broker on the same store (VerifReadStore) before the persistent sessions resume: a delivery resent after a restart must carry the QoS, subscription identifiers and retain flag the original delivery had.  non-trivial = a PUBLISH was delivered "
          "or the step is a SUBSCRIBE; distinct = distinct case lines",
     exhaustive=False,
     modelled="server.go publishToSubscribers/publishToClient (prefix)/publishRetainedToClient/processSubscribe, "
